@@ -86,7 +86,7 @@ def main():
     for l in open(os.path.join(VERIF, "properties.jsonl")):
         d = json.loads(l)
         props[d["id"]] = d
-    for pid in sys.argv[2:]:
+    for pid in [a for a in sys.argv[2:] if not a.startswith("--")]:
         wt = "/tmp/%s-%s" % (tag, pid)
         if not os.path.isdir(wt):
             subprocess.run(["git", "-C", "/repo", "worktree", "add", "--detach", wt, "HEAD"], check=True,
@@ -96,7 +96,20 @@ def main():
         prop = ("**%s — %s**\n\n%s\n\nQuantifier: %s\n\nWhy the existing tests cannot settle it: %s\n\nWhere it lives: %s\n"
                 % (pid, d["title"], d["statement"], q.get("text", q) if isinstance(q, dict) else q,
                    d["why_tests_cant"], ", ".join(d["anchors"].get("files", [])) if isinstance(d["anchors"], dict) else d["anchors"]))
-        open(os.path.join(wt, "TASK.md"), "w").write(RULES.format(prop=prop, pid=pid))
+        # changes earlier independent agents already produced for this property: descriptions of changes to the
+        # LIBRARY only (nothing about the verification machinery) — so that a new round does not find them again
+        import glob
+        prev = []
+        for mf in sorted(glob.glob(os.path.join(VERIF, "seeded", pid + "-*", "meta.json"))):
+            try:
+                prev.append("- " + " ".join(json.load(open(mf)).get("summary", "").split())[:420])
+            except (OSError, ValueError):
+                pass
+        text = RULES.format(prop=prop, pid=pid)
+        if prev and "--norepeat" in sys.argv:
+            text = text.replace("## What to produce", "## Already done by others — do NOT produce these or close variants of them again\n\n"
+                                + "\n".join(prev) + "\n\nLook for a DIFFERENT mechanism, file or code path.\n\n## What to produce")
+        open(os.path.join(wt, "TASK.md"), "w").write(text)
         print(wt)
 
 
